@@ -70,6 +70,11 @@ CLAIMED["C18"] = dict(
    note="Trusted: Coq kernel, the translator's syntactic call-graph (calls by name inside a package, an over-approximation; calls through interfaces into other packages are not followed), the Go race detector and scheduler for the search. Level is proof for the sequential-equivalence statement of the model and for the emptiness of the extracted write sets; the runtime claim itself is tested.",
    ref="5 (C18)")
 
+CLAIMED["C10"] = dict(
+   text="Proof (partial, by the nature of the property): the model of LoadContainer and of the read paths is a total executable specification; it answers on every byte string, every field it decodes is in range, the descriptor table it decodes lies inside the input (count x 585 <= input length), GetData returns exactly Size bytes all present in the input, a reader yields at most what the input holds whatever Size claims, and the integrity streams have fixed size - nothing the specification builds is out of proportion to the input. The model is compared with the library (result, error class, handle, queries, verification outcome) on hostile images: header mutants, foreign images, corpus, bit-flipped and field-rewritten signed images. Absence of panics, loops and over-allocation in the Go code is a runtime property the model cannot exhibit: it is searched by running every accessor, selector, object read, integrity stream, signer listing, verification mode and the siftool header/list/info/dump commands on ~4000 inputs per run (boundary values 0, 1, -1, min/max int64, around the file size, 2^31, 2^32, 2^40 in every numeric header and descriptor field singly and in pairs; byte fields without NUL / all ones / all zero; single-bit flips; truncations; corpus; random bytes) in a child process with capped address space, with wall-time and allocation limits per input.",
+   note="Trusted: Coq kernel+VM, the harness (child-process supervision, limits: 3 s and 96 MiB + 64 x input size per input, 6 GB address space). Level is proof for the boundedness of the executable specification; the runtime claim about the Go code is tested. Coverage-guided fuzzing is not run (go test -fuzz needs no network but is left to the thorough tier's larger grids).",
+   ref="5 (C10)")
+
 REASON_PENDING = "check not yet built in this revision (model exists; theorem file and families pending) - see DESIGN.md section 10"
 
 def main():
